@@ -2,8 +2,10 @@
 C09 — read → convert → write yields a valid target file with the source's timeline.
 
 FULL STATEMENT (the property; evaluated on every generated case by the harness through `c09.abs` / `c09.close`; proved as
-one theorem for the pairs osu → Quaver and Quaver → osu: `osu_to_qua_end_to_end`, `qua_to_osu_end_to_end` at the end of this
-file; for the other 14 pairs NOT
+one theorem for the pairs osu → Quaver, Quaver → osu, O2Jam → osu, O2Jam → Quaver: `osu_to_qua_end_to_end`,
+`qua_to_osu_end_to_end`, `o2j_to_osu_end_to_end`, `o2j_to_qua_end_to_end`; osu → StepMania for the objects in the exact
+regime: `osu_to_sm_objects_partial`; every source into osu / Quaver from the reader's output on:
+`from_abstract_to_osu_partial`, `from_abstract_to_qua_partial`; for the remaining pairs NOT
 proved as one theorem):  for every source file `t` of format A inside the domain of A's reader property, every legal
 target B and key count B supports,
     `CloseTo eps (res B) (gridExact a) shift a (abs_B (denote_B (write_B (convert_AB (read_A t)))))`   with `a = abs_A (denote_A t)`,
@@ -39,6 +41,9 @@ import Reamber.Lemmas.Pipeline
 import Reamber.Lemmas.PipelineConv
 import Reamber.Lemmas.PipelineOsuQua
 import Reamber.Lemmas.PipelineQuaOsu
+import Reamber.Lemmas.PipelineGeneric
+import Reamber.Props.C07
+import Reamber.Props.C03
 import Reamber.Props.C01
 import Reamber.Lemmas.OsuDialect
 import Reamber.Generated.SMTables
@@ -458,5 +463,346 @@ theorem qua_to_osu_end_to_end (d : Qua.Doc) (hdecl : Qua.Spec.objsDeclared d = t
   · exact hq ▸ h2
   · rw [h3, hq]
     exact ⟨_, _, List.Perm.refl _, List.Perm.refl _, zipped_refl _ (closeBpm_ms_refl false (ofQua c0)) _⟩
+
+/-! ## links 2 + 3 for EVERY converter into osu / into Quaver without a shift parameter, from any source frames -/
+
+/-- writer link into osu over `AChart` (C01 `denote_writeText` + `quantize_osu_close`) -/
+theorem write_osu_close (R : Osu.Render) (t : Convert.TChart) (md : Osu.Meta) (svs : List Osu.Sv) (a : AChart)
+    (ha : ofTChart t = a) (hw : OsuWritable R (osuOfT t md svs)) :
+    ∃ c', Osu.denoteText (Osu.writeText R (osuOfT t md svs)) = .ok c' ∧ CloseTo 0 .ms false 0 a (ofOsu c') := by
+  have hq : ofOsu (osuOfT t md svs) = a := by rw [ofOsu_osuOfT, ha]
+  have hdw := Osu.denote_writeText R (osuOfT t md svs) hw.hk hw.hk' hw.hhits hw.hholds hw.hb hw.hs hw.hm hw.hnl hw.hbq hw.hbc
+  obtain ⟨h1, h2, h3⟩ := quantize_osu_close R.uni (osuOfT t md svs) a
+  refine ⟨_, hdw, hq ▸ h1, hq ▸ h2, ?_⟩
+  rw [h3, hq]
+  exact ⟨_, _, List.Perm.refl _, List.Perm.refl _, zipped_refl _ (closeBpm_ms_refl false a) _⟩
+
+/-- writer link into Quaver over `AChart` (C06 `qua_write_denotes`), tempo points on whole milliseconds -/
+theorem write_qua_close (t : Convert.TChart) (info : Qua.Rec) (svs : List Qua.Sv) (d : Qua.Doc) (a : AChart)
+    (ha : ofTChart t = a) (hm : Qua.MetaOk info) (hms : TempoWholeMs a)
+    (hw : Qua.write (quaOfT t info svs) = .ok d) :
+    ∃ c', Qua.Spec.denote d = .ok c' ∧ CloseTo 0 .ms false 0 a (ofQua c') := by
+  have hq : ofQua (quaOfT t info svs) = a := by rw [ofQua_quaOfT, ha]
+  obtain ⟨hden', _⟩ := Qua.qua_write_denotes _ d hm (ksLists_quaOfT t info svs) hw
+  obtain ⟨c', hc', hobj⟩ := into_qua_objects_partial _ d hm (ksLists_quaOfT t info svs) hw
+  have hceq : c' = Qua.Spec.quantize (quaOfT t info svs) := by
+    rw [hden'] at hc'
+    exact (Except.ok.inj hc').symm
+  refine ⟨c', hc', hq ▸ hobj.1, hq ▸ hobj.2, ?_⟩
+  have hb : (ofQua c').bpms = a.bpms := by
+    rw [hceq, ← hq]
+    simp only [ofQua, Qua.Spec.quantize, List.map_map]
+    apply List.map_congr_left
+    intro b hbm
+    have hmem : (b.offset, b.bpm) ∈ a.bpms := by
+      rw [← hq]
+      exact List.mem_map.mpr ⟨b, hbm, rfl⟩
+    have := hms _ hmem
+    simp only [Function.comp, Qua.Spec.qBpm]
+    rw [this]
+  rw [hb]
+  exact ⟨_, _, List.Perm.refl _, List.Perm.refl _, zipped_refl _ (closeBpm_ms_refl false a) _⟩
+
+/-- **convert, then write as osu — every converter entry without a shift parameter** (the four converters into osu, and
+formally any other entry of that kind): for every well-formed source (any number of charts, any row labels) and every
+(source map, converted chart) pair, the text written for the chart held by the converted frames denotes the SOURCE MAP's
+abstract chart: hits and holds within 1 ms, tempo timeline equal. -/
+theorem convert_write_osu : ∀ c ∈ Generated.converters, c.shiftParam = none →
+    ∀ (src : Convert.Src) (k : Int) (out : Convert.Out), (∀ m ∈ src.maps, Convert.srcMapOk m = true) →
+    Convert.convert Convert.tables c src k = .ok out →
+    ∀ p ∈ src.maps.zip out.pairs, ∀ (R : Osu.Render) (md : Osu.Meta) (svs : List Osu.Sv),
+      OsuWritable R (osuOfT p.2.2 md svs) →
+      ∃ c', Osu.denoteText (Osu.writeText R (osuOfT p.2.2 md svs)) = .ok c' ∧
+        CloseTo 0 .ms false 0 (ofSrcMap p.1) (ofOsu c') := by
+  intro c hc hns src k out hsrc hconv p hp R md svs hw
+  exact write_osu_close R _ md svs _
+    (convert_abstract_eq _ c src k out (Convert.table_static_ok c hc) hns hsrc hconv p hp) hw
+
+/-- **convert, then write as Quaver — every converter entry without a shift parameter**: as `convert_write_osu`, with the
+source map's tempo points on whole milliseconds. -/
+theorem convert_write_qua : ∀ c ∈ Generated.converters, c.shiftParam = none →
+    ∀ (src : Convert.Src) (k : Int) (out : Convert.Out), (∀ m ∈ src.maps, Convert.srcMapOk m = true) →
+    Convert.convert Convert.tables c src k = .ok out →
+    ∀ p ∈ src.maps.zip out.pairs, ∀ (info : Qua.Rec) (svs : List Qua.Sv) (d : Qua.Doc),
+      Qua.MetaOk info → TempoWholeMs (ofSrcMap p.1) → Qua.write (quaOfT p.2.2 info svs) = .ok d →
+      ∃ c', Qua.Spec.denote d = .ok c' ∧ CloseTo 0 .ms false 0 (ofSrcMap p.1) (ofQua c') := by
+  intro c hc hns src k out hsrc hconv p hp info svs d hm hms hw
+  exact write_qua_close _ info svs d _
+    (convert_abstract_eq _ c src k out (Convert.table_static_ok c hc) hns hsrc hconv p hp) hm hms hw
+
+/-! ## O2Jam → osu and O2Jam → Quaver, bytes to written file -/
+
+def o2jToOsu : Convert.Conv := Convert.conv! "O2JToOsu.convert"
+def o2jToQua : Convert.Conv := Convert.conv! "O2JToQua.convert"
+
+theorem o2j_entries : o2jToOsu ∈ Generated.converters ∧ o2jToOsu.name = "O2JToOsu.convert" ∧ o2jToOsu.shiftParam = none ∧
+    o2jToQua ∈ Generated.converters ∧ o2jToQua.name = "O2JToQua.convert" ∧ o2jToQua.shiftParam = none := by
+  decide +kernel
+
+/-- the in-memory `O2JMapSet` as the converters read it: one map per level (the list frames holding the level's
+abstract rows, fresh labels), the set's text attributes as placeholders -/
+def o2jSrc (f : O2J.FileOut) : Convert.Src :=
+  ⟨[("title", "<title>"), ("artist", "<artist>"), ("creator", "<creator>")],
+   f.levels.map (fun l => embA (ofO2J l) none [] "<level>")⟩
+
+theorem o2jSrc_ok (f : O2J.FileOut) : ∀ m ∈ (o2jSrc f).maps, Convert.srcMapOk m = true := by
+  intro m hm
+  simp only [o2jSrc, List.mem_map] at hm
+  obtain ⟨l, _, rfl⟩ := hm
+  exact srcMapOk_embA _ _ _ _
+
+theorem o2jSrc_zip (f : O2J.FileOut) (ps : List (Convert.TGroup × Convert.TChart)) (p : O2J.LevelOut × Convert.TGroup × Convert.TChart)
+    (hp : p ∈ f.levels.zip ps) : (embA (ofO2J p.1) none [] "<level>", p.2) ∈ (o2jSrc f).maps.zip ps := by
+  simp only [o2jSrc, List.zip_map_left]
+  exact List.mem_map.mpr ⟨p, hp, rfl⟩
+
+/-- non-vacuity of the converter hypotheses: on the frames of a two-level set both converter models succeed and return
+one chart per level holding the level's tempo rows -/
+example :
+    let lv : O2J.LevelOut := ⟨[], [⟨0, 120, 0⟩, ⟨1, 150, 2000⟩]⟩
+    let f : O2J.FileOut := ⟨[], [lv, lv]⟩
+    (match Convert.convert Convert.tables o2jToOsu (o2jSrc f) 0 with
+     | .ok out => out.charts.map (fun t => (ofTChart t).bpms) == [[(0, 120), (2000, 150)], [(0, 120), (2000, 150)]]
+     | .error _ => false) = true ∧
+    (match Convert.convert Convert.tables o2jToQua (o2jSrc f) 0 with
+     | .ok out => out.charts.map (fun t => (ofTChart t).bpms) == [[(0, 120), (2000, 150)], [(0, 120), (2000, 150)]]
+     | .error _ => false) = true := by decide +kernel
+
+/-- **O2Jam → osu, end to end** (bytes of the .ojn to written .osu text; reader C07, converter C08, writer C01): for
+every well-formed byte string `bs` that the format's specification reads as `f` (header + one level per package count):
+1. the reader as written returns exactly `f` (C07 `read_spec`);
+2. whenever the converter model's `O2JToOsu.convert` succeeds on the set's frames it returns one chart per level;
+3. for every level `l` and its converted chart `t`: whenever the chart held by `t`'s frames is `OsuWritable`, the written
+   text has a by-the-book denotation `c'` with `CloseTo 0 ms false 0 (ofO2J l) (ofOsu c')` — hits and holds of the level
+   within 1 ms, tempo timeline equal.
+Remaining hypotheses: success of the converter model; `OsuWritable` (C01's writer hypotheses; the written key count 7 is
+`osu_circle_size_rules`); renderer `R` a parameter.  Glue by definition: `o2jSrc` / `embA`, `osuOfT`. -/
+theorem o2j_to_osu_end_to_end (bs : List Nat) (hwf : O2J.Spec.wellFormed bs = true) (f : O2J.FileOut)
+    (hspec : O2J.Spec.specSet bs = .ok f) (k : Int) (out : Convert.Out)
+    (hconv : Convert.convert Convert.tables o2jToOsu (o2jSrc f) k = .ok out) :
+    O2J.readFile bs = .ok f ∧ out.charts.length = f.levels.length ∧
+    ∀ p ∈ f.levels.zip out.pairs, ∀ (R : Osu.Render) (md : Osu.Meta) (svs : List Osu.Sv),
+      OsuWritable R (osuOfT p.2.2 md svs) →
+      ∃ c', Osu.denoteText (Osu.writeText R (osuOfT p.2.2 md svs)) = .ok c' ∧
+        CloseTo 0 .ms false 0 (ofO2J p.1) (ofOsu c') := by
+  obtain ⟨hc, _, hns, _, _, _⟩ := o2j_entries
+  refine ⟨by rw [O2J.read_spec bs hwf]; exact hspec, ?_, ?_⟩
+  · have := Convert.one_per_source _ _ _ _ _ (Convert.table_shapes _ hc) hconv
+    simpa [Convert.onePerSource, o2jSrc] using this
+  · intro p hp R md svs hw
+    have := convert_write_osu _ hc hns _ k out (o2jSrc_ok f) hconv _ (o2jSrc_zip f _ p hp) R md svs hw
+    simpa [ofSrcMap_embA] using this
+
+/-- **O2Jam → Quaver, end to end**: as `o2j_to_osu_end_to_end` with the Quaver writer (C06); additionally the level's
+tempo points lie on whole milliseconds (`TempoWholeMs`), the metadata record is `MetaOk`, the writer model accepts. -/
+theorem o2j_to_qua_end_to_end (bs : List Nat) (hwf : O2J.Spec.wellFormed bs = true) (f : O2J.FileOut)
+    (hspec : O2J.Spec.specSet bs = .ok f) (k : Int) (out : Convert.Out)
+    (hconv : Convert.convert Convert.tables o2jToQua (o2jSrc f) k = .ok out) :
+    O2J.readFile bs = .ok f ∧ out.charts.length = f.levels.length ∧
+    ∀ p ∈ f.levels.zip out.pairs, ∀ (info : Qua.Rec) (svs : List Qua.Sv) (d : Qua.Doc),
+      Qua.MetaOk info → TempoWholeMs (ofO2J p.1) → Qua.write (quaOfT p.2.2 info svs) = .ok d →
+      ∃ c', Qua.Spec.denote d = .ok c' ∧ CloseTo 0 .ms false 0 (ofO2J p.1) (ofQua c') := by
+  obtain ⟨_, _, _, hc, _, hns⟩ := o2j_entries
+  refine ⟨by rw [O2J.read_spec bs hwf]; exact hspec, ?_, ?_⟩
+  · have := Convert.one_per_source _ _ _ _ _ (Convert.table_shapes _ hc) hconv
+    simpa [Convert.onePerSource, o2jSrc] using this
+  · intro p hp info svs d hm hms hw
+    have := convert_write_qua _ hc hns _ k out (o2jSrc_ok f) hconv _ (o2jSrc_zip f _ p hp) info svs d hm
+      (by simpa [ofSrcMap_embA] using hms) hw
+    simpa [ofSrcMap_embA] using this
+
+/-! ## every source format into osu / Quaver, from the reader's output on (`_partial`: reader link as hypothesis) -/
+
+/-- the in-memory set whose maps hold the abstract charts `as` -/
+def srcOfAbstract (as : List AChart) (svs : Option (List (Rat × Rat))) (setAttrs mapAttrs : List (String × String))
+    (lv : String) : Convert.Src :=
+  ⟨setAttrs, as.map (fun a => embA a svs mapAttrs lv)⟩
+
+/-- **any source → osu** (`_partial`: covers StepMania → osu and BMS → osu, where the readers' whole-file theorems — C02
+`reader_notes_eq_spec` / `sm_times`, C04 `read_eq_denote` — are stated over their own chart types and the statement "the
+in-memory set is the frames of the denotation's abstract charts `as`" is the hypothesis carried by `srcOfAbstract`):
+for every converter entry without a shift parameter, whenever the converter model succeeds on that set, the file written
+for chart `i` denotes the abstract chart `as[i]` — hits and holds within 1 ms, tempo timeline equal. -/
+theorem from_abstract_to_osu_partial : ∀ c ∈ Generated.converters, c.shiftParam = none →
+    ∀ (as : List AChart) (svs : Option (List (Rat × Rat))) (setAttrs mapAttrs : List (String × String)) (lv : String)
+      (k : Int) (out : Convert.Out),
+    Convert.convert Convert.tables c (srcOfAbstract as svs setAttrs mapAttrs lv) k = .ok out →
+    ∀ p ∈ as.zip out.pairs, ∀ (R : Osu.Render) (md : Osu.Meta) (osvs : List Osu.Sv),
+      OsuWritable R (osuOfT p.2.2 md osvs) →
+      ∃ c', Osu.denoteText (Osu.writeText R (osuOfT p.2.2 md osvs)) = .ok c' ∧ CloseTo 0 .ms false 0 p.1 (ofOsu c') := by
+  intro c hc hns as svs sa ma lv k out hconv p hp R md osvs hw
+  have hsrc : ∀ m ∈ (srcOfAbstract as svs sa ma lv).maps, Convert.srcMapOk m = true := by
+    intro m hm
+    simp only [srcOfAbstract, List.mem_map] at hm
+    obtain ⟨a, _, rfl⟩ := hm
+    exact srcMapOk_embA _ _ _ _
+  have hmem : (embA p.1 svs ma lv, p.2) ∈ (srcOfAbstract as svs sa ma lv).maps.zip out.pairs := by
+    simp only [srcOfAbstract, List.zip_map_left]
+    exact List.mem_map.mpr ⟨p, hp, rfl⟩
+  have := convert_write_osu c hc hns _ k out hsrc hconv _ hmem R md osvs hw
+  simpa [ofSrcMap_embA] using this
+
+/-- **any source → Quaver** (`_partial` as above; tempo points of the chart on whole milliseconds) -/
+theorem from_abstract_to_qua_partial : ∀ c ∈ Generated.converters, c.shiftParam = none →
+    ∀ (as : List AChart) (svs : Option (List (Rat × Rat))) (setAttrs mapAttrs : List (String × String)) (lv : String)
+      (k : Int) (out : Convert.Out),
+    Convert.convert Convert.tables c (srcOfAbstract as svs setAttrs mapAttrs lv) k = .ok out →
+    ∀ p ∈ as.zip out.pairs, ∀ (info : Qua.Rec) (qsvs : List Qua.Sv) (d : Qua.Doc),
+      Qua.MetaOk info → TempoWholeMs p.1 → Qua.write (quaOfT p.2.2 info qsvs) = .ok d →
+      ∃ c', Qua.Spec.denote d = .ok c' ∧ CloseTo 0 .ms false 0 p.1 (ofQua c') := by
+  intro c hc hns as svs sa ma lv k out hconv p hp info qsvs d hm hms hw
+  have hsrc : ∀ m ∈ (srcOfAbstract as svs sa ma lv).maps, Convert.srcMapOk m = true := by
+    intro m hm
+    simp only [srcOfAbstract, List.mem_map] at hm
+    obtain ⟨a, _, rfl⟩ := hm
+    exact srcMapOk_embA _ _ _ _
+  have hmem : (embA p.1 svs ma lv, p.2) ∈ (srcOfAbstract as svs sa ma lv).maps.zip out.pairs := by
+    simp only [srcOfAbstract, List.zip_map_left]
+    exact List.mem_map.mpr ⟨p, hp, rfl⟩
+  have := convert_write_qua c hc hns _ k out hsrc hconv _ hmem info qsvs d hm (by simpa [ofSrcMap_embA] using hms) hw
+  simpa [ofSrcMap_embA] using this
+
+/-! ## osu → StepMania (objects, exact regime) -/
+
+def osuToSM : Convert.Conv := Convert.conv! "OsuToSM.convert"
+
+theorem osuToSM_entry : osuToSM ∈ Generated.converters ∧ osuToSM.name = "OsuToSM.convert" ∧ osuToSM.shiftParam = none := by
+  decide +kernel
+
+/-- the in-memory `SMMap` whose list frames are `t`'s, as the writer model sees it: hits and holds of the frames (no
+mines / rolls / lifts / fakes / key sounds: no converter produces them), the tempo rows, the given chart header -/
+def smOfT (t : Convert.TChart) (ty desc diff : SM.Str) (dv : Int) (groove : List Rat) : SM.WChart :=
+  { chartType := ty, description := desc, difficulty := diff, difficultyVal := dv, groove := groove
+    bpms := (ofTChart t).bpms
+    notes := (ofTChart t).hits.map (fun h => ⟨.hit, h.2.toNat, h.1, 0⟩) ++
+             (ofTChart t).holds.map (fun h => ⟨.hold, h.2.1.toNat, h.1, h.2.2⟩) }
+
+theorem filter_map_all {α β} (l : List α) (f : α → β) (p : β → Bool) (h : ∀ a, p (f a) = true) :
+    (l.map f).filter p = l.map f := by
+  induction l with
+  | nil => rfl
+  | cons a t ih => simp [List.filter_cons, h a, ih]
+
+theorem filter_map_none {α β} (l : List α) (f : α → β) (p : β → Bool) (h : ∀ a, p (f a) = false) :
+    (l.map f).filter p = [] := by
+  induction l with
+  | nil => rfl
+  | cons a t ih => simp [List.filter_cons, h a, ih]
+
+/-- columns of the abstract chart are not negative (true of every denoted chart; kept as a hypothesis) -/
+def ColsNonneg (a : AChart) : Prop := (∀ h ∈ a.hits, 0 ≤ h.2) ∧ (∀ h ∈ a.holds, 0 ≤ h.2.1)
+
+/-- a denoted StepMania chart whose timed notes are those of `smOfT t …` has, as abstract chart, the hits and holds of
+`t`'s frames (as multisets) -/
+theorem ofSMChart_objects (t : Convert.TChart) (ty desc diff : SM.Str) (dv : Int) (groove : List Rat)
+    (offsetSec : Rat) (bpms : List (Rat × Rat)) (dc : SM.DChart) (hc : ColsNonneg (ofTChart t))
+    (hp : (SM.timedNotes offsetSec bpms dc).Perm ((smOfT t ty desc diff dv groove).notes.map SM.timedOfW)) :
+    (ofSMChart offsetSec bpms dc).hits.Perm (ofTChart t).hits ∧
+    (ofSMChart offsetSec bpms dc).holds.Perm (ofTChart t).holds := by
+  constructor
+  · have h1 := (hp.filter (fun n => decide (n.kind = SM.Kind.hit))).map (fun n => (n.time, (n.col : Int)))
+    refine h1.trans (List.Perm.of_eq ?_)
+    simp only [smOfT, List.map_append, List.map_map, List.filter_append]
+    rw [filter_map_all _ _ _ (fun a => by simp [SM.timedOfW, Function.comp]),
+        filter_map_none _ _ _ (fun a => by simp [SM.timedOfW, Function.comp])]
+    simp only [List.map_nil, List.append_nil, List.map_map]
+    have : ∀ h ∈ (ofTChart t).hits, ((fun n : SM.TNote => (n.time, (n.col : Int))) ∘ (SM.timedOfW ∘ fun h : AHit => (⟨.hit, h.2.toNat, h.1, 0⟩ : SM.Note))) h = h := by
+      intro h hh
+      simp [Function.comp, SM.timedOfW, Int.toNat_of_nonneg (hc.1 h hh)]
+    rw [List.map_congr_left this, List.map_id']
+  · have h1 := (hp.filter (fun n => decide (n.kind = SM.Kind.hold))).map (fun n => (n.time, (n.col : Int), n.length))
+    refine h1.trans (List.Perm.of_eq ?_)
+    simp only [smOfT, List.map_append, List.map_map, List.filter_append]
+    rw [filter_map_none _ _ _ (fun a => by simp [SM.timedOfW, Function.comp]),
+        filter_map_all _ _ _ (fun a => by simp [SM.timedOfW, Function.comp])]
+    simp only [List.map_nil, List.nil_append, List.map_map]
+    have : ∀ h ∈ (ofTChart t).holds, ((fun n : SM.TNote => (n.time, (n.col : Int), n.length)) ∘ (SM.timedOfW ∘ fun h : AHold => (⟨.hold, h.2.1.toNat, h.1, h.2.2⟩ : SM.Note))) h = h := by
+      intro h hh
+      simp [Function.comp, SM.timedOfW, Int.toNat_of_nonneg (hc.2 h hh)]
+    rw [List.map_congr_left this, List.map_id']
+
+theorem closeHit_exact_refl (res : Res) (src : AChart) (a : AHit) (f g : Rat) (hres : res = .beat f g) :
+    closeHit 0 res true 0 src a a = true := by
+  subst hres
+  have hz : slack 0 a.1 a.1 = 0 := by unfold slack; rw [Rat.zero_mul, Rat.add_zero]
+  have h0 : rabs (a.1 - a.1) = 0 := by unfold rabs; rw [Rat.sub_self]; simp
+  have r0 : rabs (0 : Rat) ≤ 0 := by decide +kernel
+  simp [closeHit, closeTime, eqUpTo, hz, h0, r0]
+
+theorem closeHold_exact_refl (src : AChart) (a : AHold) (f g : Rat) :
+    closeHold 0 (.beat f g) true 0 src a a = true := by
+  have hz : ∀ x : Rat, slack 0 x x = 0 := by intro x; unfold slack; rw [Rat.zero_mul, Rat.add_zero]
+  have h0 : ∀ x : Rat, rabs (x - x) = 0 := by intro x; unfold rabs; rw [Rat.sub_self]; simp
+  have r0 : rabs (0 : Rat) ≤ 0 := by decide +kernel
+  simp [closeHold, closeTime, eqUpTo, hz, h0, r0]
+
+theorem paired_of_perm_exact {α} (R : α → α → Prop) (hR : ∀ a, R a a) (as bs : List α) (h : bs.Perm as) : Paired R as bs :=
+  ⟨as, as, List.Perm.refl _, h.symm, zipped_refl R hR as⟩
+
+/-- **osu → StepMania, objects, exact regime** (`_partial`): let an osu text of the dialect denote `c0` (key count ≥ 1,
+columns not negative).  Then the reader returns `c0` (C01); whenever the converter model's `OsuToSM.convert` succeeds on
+the frames of `c0`, every converted chart `t` holds exactly `c0`'s abstract chart; and whenever a `.sm` file `items`
+whose only `#NOTES` value is the note data `SMMap.write` emits for the chart held by `t`'s frames satisfies the hypotheses
+of C03 `write_read_exact` (C10's domain for the tempo list `cs` with `−1000·#OFFSET = t0`, objects on the snap grid,
+`EventsOK`, non-overlapping holds: `C03.ChartWritten`), the StepMania denotation of that file exists, has one chart, and
+its hits and holds are EXACTLY those of the source file (`ObjectsClose` in the exact regime: same column, same time).
+`_partial` because: (1) the tempo timeline of the written file is not compared here (C03 carries `changesOf bpms = cs`
+as a hypothesis); (2) that the text `SMMapSet.write` produces is `renderItems items` is C03's open `render_items_partial`;
+(3) the off-grid case (1/96 beat) has no writer theorem in C03.  That `#OFFSET` is the first tempo point — which
+`C03.ChartWritten`'s `toTimingMap c.bpms = tmOf t0 cs` together with `−1000·offsetSec = t0` demands — is what
+`sm_offset_rules` + `offset_established_first` establish for this converter (D14). -/
+theorem osu_to_sm_objects_partial (s : Osu.Skeleton) (hwf : s.WF) (lines : List Osu.Str)
+    (hl : lines.map Osu.strip = s.lines) (c0 : Osu.Chart) (hden : Osu.denote lines = .ok c0)
+    (hk : 1 ≤ Osu.pyTrunc c0.md.circleSize) (hcols : ColsNonneg (ofOsu c0))
+    (k : Int) (out : Convert.Out)
+    (hconv : Convert.convert Convert.tables osuToSM ⟨[], [embOsu c0]⟩ k = .ok out) :
+    Osu.read lines = .ok c0 ∧
+    ∀ p ∈ [embOsu c0].zip out.pairs, ofTChart p.2.2 = ofOsu c0 ∧
+      ∀ (ty desc diff : SM.Str) (dv : Int) (groove : List Rat) (rows : List (List SM.Str))
+        (params : SM.Str × SM.Str × SM.Str × SM.Str × SM.Str)
+        (t0 : Rat) (cs : List Timing.BcSnap)
+        (_ : Timing.wfChanges cs = true) (_ : Timing.sortedSnaps cs = true) (_ : Timing.firstAtZero cs = true)
+        (_ : Timing.gridCompatible (Timing.grid Timing.defaultMaxDiv) cs = true) (_ : Timing.metronomeOk cs = true)
+        (_ : ∀ c ∈ cs, c.met = 4)
+        (items : List SM.Item) (_ : ∀ it ∈ items, SM.ItemOk it)
+        (_ : C03.ChartWritten t0 cs (smOfT p.2.2 ty desc diff dv groove) rows)
+        (_ : (SM.valuesOf items).filter (SM.tagIs SM.tagNotes) =
+              [C03.notesValue (smOfT p.2.2 ty desc diff dv groove, rows, params)])
+        (offT bpmT : SM.Str) (offsetSec : Rat) (bpms : List (Rat × Rat))
+        (_ : SM.firstParam (SM.valuesOf items) SM.tagOffsetS = some offT) (_ : SM.parseFloat offT = .ok offsetSec)
+        (_ : SM.firstParam (SM.valuesOf items) SM.tagBpmsS = some bpmT) (_ : SM.parsePairs bpmT = some bpms)
+        (_ : -(1000 * offsetSec) = t0) (_ : SM.changesOf bpms = cs),
+        ∃ d, SM.denote (SM.renderItems items) = some d ∧ d.offsetSec = some offsetSec ∧ d.bpms = some bpms ∧
+          d.charts.length = 1 ∧
+          ∀ (hd : 0 < d.charts.length),
+            ObjectsClose 0 (.beat (1 / 96) (1 / 192)) true 0 (ofOsu c0) (ofSMChart offsetSec bpms d.charts[0]) := by
+  obtain ⟨hc, _, hns⟩ := osuToSM_entry
+  refine ⟨Osu.read_eq_denote s hwf lines hl c0 hden hk, ?_⟩
+  intro p hp
+  have hsrc : ∀ m ∈ (⟨[], [embOsu c0]⟩ : Convert.Src).maps, Convert.srcMapOk m = true := by
+    intro m hm
+    simp only [List.mem_singleton] at hm
+    subst hm
+    exact srcMapOk_embOsu c0
+  have hp1 : p.1 = embOsu c0 := by
+    have := (List.of_mem_zip hp).1
+    simpa using this
+  have habs : ofTChart p.2.2 = ofOsu c0 := by
+    rw [convert_abstract_eq _ _ _ k out (Convert.table_static_ok _ hc) hns hsrc hconv p hp, hp1, ofSrcMap_embOsu]
+  refine ⟨habs, ?_⟩
+  intro ty desc diff dv groove rows params t0 cs h1 h2 h3 h4 h5 h6 items hok hcw hnotes offT bpmT offsetSec bpms
+    hoffv hoff hbpmv hbpm ho hbp
+  obtain ⟨d, hd, hdo, hdb, _, hlen, hall⟩ := C03.write_read_exact t0 cs h1 h2 h3 h4 h5 h6 items hok
+    [(smOfT p.2.2 ty desc diff dv groove, rows, params)]
+    (by intro x hx; simp only [List.mem_singleton] at hx; subst hx; exact hcw)
+    (by simpa using hnotes) offT bpmT offsetSec bpms hoffv hoff hbpmv hbpm ho hbp
+  refine ⟨d, hd, hdo, hdb, by simpa using hlen, ?_⟩
+  intro hd0
+  obtain ⟨_, _, hperm⟩ := hall 0 (by simp) hd0
+  obtain ⟨hh, hl'⟩ := ofSMChart_objects p.2.2 ty desc diff dv groove offsetSec bpms d.charts[0]
+    (habs ▸ hcols) (by simpa using hperm)
+  rw [habs] at hh hl'
+  exact ⟨paired_of_perm_exact _ (fun a => closeHit_exact_refl _ _ a _ _ rfl) _ _ hh,
+         paired_of_perm_exact _ (fun a => closeHold_exact_refl _ a _ _) _ _ hl'⟩
 
 end Reamber.Pipeline
